@@ -3,7 +3,8 @@ import IofloModel.Lemmas.Share
 # C19 — share stamps, fields and decks follow their documented rules
 
 Property theorems only.  Model: `Model/Share.lean` (transcription of `storing.Share`, `Data`,
-`Deck`, with the repairs D11b, D11c, D11d, D11f of `/verif/fixes`; defects D11 and D11e are reproduced).
+`Deck`, with the repairs D11, D11b, D11c, D11d, D11f of `/verif/fixes`; the known finding D11e is
+reproduced; `setattrLegacy` keeps the unrepaired D11 behaviour for the record).
 `w` ranges over all worlds (share + two stores), histories over all operation lists.
 -/
 namespace Ioflo.Share
@@ -152,17 +153,26 @@ theorem C19_fields_ordered_map_del (w : World) (hs : Sync w.data) (k : Str) (hp 
     rw [this]
     rfl
 
-/-- **Ordered map, lookup**: item access, `in` and `get` of a public name read `items()`. -/
-theorem C19_fields_ordered_map_get (w : World) (hs : Sync w.data) (k : Str) (hp : identPub k = true) :
+theorem lookup_view_eq_raw {d : Data} (hs : Sync d) (k : Str) : lookup (view d) k = lookup d.raw k := by
+  rw [lookup_view]
+  by_cases hm : k ∈ d.keys
+  · simp [hm]
+  · simp only [hm, if_false]
+    cases hl : lookup d.raw k with
+    | none => rfl
+    | some x => exact absurd (hs.rawInKeys k (by simp [hl])) hm
+
+/-- **Ordered map, lookup**: item access, `in` and `get` read `items()` — for EVERY name, class
+attribute names of `Data` included (D11 repair of the read side). -/
+theorem C19_fields_ordered_map_get (w : World) (hs : Sync w.data) (k : Str) :
     (step w (.getItem k)).2 = (match lookup (view w.data) k with
       | some v => .val v
       | none => .err .keyError) ∧
     (step w (.contains k)).2 = .bool (lookup (view w.data) k).isSome ∧
     (step w (.get k)).2 = .val ((lookup (view w.data) k).getD .none) := by
-  have h := view_getattr hs hp
-  simp only [step, hasattr]
-  rw [h]
-  cases lookup (view w.data) k <;> simp [toKey]
+  rw [lookup_view_eq_raw hs]
+  simp only [step]
+  cases lookup w.data.raw k <;> simp
 
 /-- **Ordered map, positional insertion** (`Share.insert`, with the D11f repair): a name that is
 not a public identifier, or that is already a field, is refused with KeyError and nothing
@@ -182,14 +192,10 @@ theorem C19_fields_ordered_map_insert (w : World) (hs : Sync w.data) (idx : Int)
     have := hs.keysInRaw k hm
     simp [step, hp, this]
   · intro hp hm
-    have hc := identPub_not_classAttr hp
     have hn : lookup w.data.raw k = none := by
       cases hl : lookup w.data.raw k with
       | none => rfl
-      | some x =>
-        rcases hs.rawInKeys k (by simp [hl]) with h1 | h1
-        · exact absurd h1 hm
-        · rw [hc] at h1; simp at h1
+      | some x => exact absurd (hs.rawInKeys k (by simp [hl])) hm
     have hs' := sync_insert hs v idx hn hp
     have hstep : step w (.insert idx k v) =
         ({ w with data := ⟨rawSet w.data.raw k v, pyInsert w.data.keys idx k⟩ }, .unit) := by
@@ -215,48 +221,52 @@ theorem C19_fields_ordered_map (ops : List Op) (k : Str) (v : Val) (hp : identPu
    fun hm => ((C19_fields_ordered_map_del _ (C19_sync_invariant ops) k hp).1 hm).2,
    (C19_fields_ordered_map_del _ (C19_sync_invariant ops) k hp).2⟩
 
-/-- a name that is neither public nor a class attribute of `Data` nor already present is
-rejected by `Data.__setattr__`, and nothing changes -/
-theorem C19_rejects_nonpublic (d : Data) (k : Str) (v : Val) (hc : classAttr k = none)
-    (hp : identPub k = false) (hn : lookup d.raw k = none) :
-    setattr d k v = (d, some .attributeError) := by
-  have hh : hasattr d k = false := by
-    unfold hasattr getattr; rw [hc, hn]; simp
+/-- **A name that is not a public identifier is never accepted** — whatever it is: a leading
+underscore, a digit first, a method name of `Data`, `__class__`, `__dict__`, … : unless it
+already is a field, `Data.__setattr__` raises and nothing changes. -/
+theorem C19_rejects_nonpublic (d : Data) (k : Str) (v : Val) (hp : identPub k = false)
+    (hn : lookup d.raw k = none) :
+    (setattr d k v).1 = d ∧ (setattr d k v).2 ≠ none := by
   unfold setattr
-  simp [hh, hn, hp]
+  by_cases hh : hasattr d k = true
+  · simp only [hh, if_true, hn, Option.isNone_none, Bool.true_and]
+    cases hc : classAttr k with
+    | none => simp
+    | some c => cases c <;> simp
+  · simp [hh, hn, hp]
 
-/-- the full claim about names: whatever the share holds (`in`, `[]`, `len` see the C-level
-dict) is a public identifier — for every history -/
+/-- the claim about names: whatever the share holds (`in`, `[]`, `len` see the C-level dict)
+is a public identifier — for every history -/
 def C19_full : Prop :=
   ∀ (ops : List Op) (k : Str), (lookup (run init ops).data.raw k).isSome = true → identPub k = true
 
-/-- **Partial (D11 excluded)**: for every history that never names a class attribute of `Data`
-(`regionD11 ops = false`), everything the share holds is in the key list and is a public
-identifier. -/
-theorem C19_field_names_public_partial (ops : List Op) (hreg : regionD11 ops = false) (k : Str)
+/-- **Field names are public identifiers, every history, every name tried** (full, with the D11
+repair): everything the share holds is in the key list and is a public identifier. -/
+theorem C19_field_names_public (ops : List Op) (k : Str)
     (h : (lookup (run init ops).data.raw k).isSome = true) :
     k ∈ (run init ops).data.keys ∧ identPub k = true := by
-  have hrp := rawPublic_run ops init sync_empty (by intro j hj; simp [init, lookup] at hj) hreg
-  have hm := hrp k h
-  exact ⟨hm, C19_keys_public ops k hm⟩
+  have hs := C19_sync_invariant ops
+  exact ⟨hs.rawInKeys k h, hs.keysPublic k (hs.rawInKeys k h)⟩
 
-/-- **D11**: `share['_sift'] = 5` is accepted; afterwards `'_sift' in share` and `len(share)`
-see it although `_sift` is not a public identifier and `keys()` is empty. -/
-theorem C19_counterexample_sift : ¬ C19_full := by
-  intro h
-  have := h [.setItem "_sift".toList (.int 5)] "_sift".toList (by decide)
-  revert this
-  decide
+theorem C19_full_holds : C19_full := fun ops k h => (C19_field_names_public ops k h).2
 
-def demoSift : World := run init [.setItem "_sift".toList (.int 5)]
+/-- **D11, for the record**: `Data.__setattr__` as it was found accepted the method name `_sift`
+as an attribute and wrote it behind the odict's back (in the C-level dict, not in the key list);
+the repaired one refuses it and changes nothing. -/
+theorem C19_legacy_sift :
+    setattrLegacy ⟨[], []⟩ "_sift".toList (.int 5) = (⟨[("_sift".toList, .int 5)], []⟩, none) ∧
+    identPub "_sift".toList = false ∧
+    setattr ⟨[], []⟩ "_sift".toList (.int 5) = (⟨[], []⟩, some .attributeError) := by decide
 
-/-- what the witness does, observably -/
+/-- the same through the share: refused with KeyError, invisible to `in`, `[]`, `len`, `keys` -/
 example :
-    (step init (.setItem "_sift".toList (.int 5))).2 = .unit ∧
-    (step demoSift (.contains "_sift".toList)).2 = .bool true ∧
-    (step demoSift (.getItem "_sift".toList)).2 = .val (.int 5) ∧
-    (step demoSift .len).2 = .nat 1 ∧ (step demoSift .keys).2 = .strs [] ∧
-    regionD11 [.setItem "_sift".toList (.int 5)] = true := by decide
+    step init (.setItem "_sift".toList (.int 5)) = (init, .err .keyError) ∧
+    (step init (.contains "_sift".toList)).2 = .bool false ∧
+    (step init (.getItem "__doc__".toList)).2 = .err .keyError ∧
+    (step init (.setItem "__class__".toList (.int 5))).2 = .err .keyError ∧
+    (step init (.setItem "__dict__".toList (.int 5))).2 = .err .typeError ∧
+    (step init (.create [("_show".toList, .int 1), ("q".toList, .int 2)])).1.data.keys = ["q".toList] := by
+  decide
 
 /-! ## deck -/
 
@@ -386,8 +396,7 @@ example :
     (step demo6 (.setItem "_x".toList (.int 1))) = (demo6, .err .keyError) ∧
     (step demo6 (.setItem "ab\n".toList (.int 1))) = (demo6, .err .keyError) ∧
     (step demo6 (.update [("c".toList, .int 1), ("9".toList, .int 1)])).2 = .err .attributeError ∧
-    demo6.deck = [.int 7, .int 8] ∧ (step demo6 .spew).2 = .val (.int 7) ∧
-    regionD11 [.setItem "_x".toList (.int 1)] = false := by decide
+    demo6.deck = [.int 7, .int 8] ∧ (step demo6 .spew).2 = .val (.int 7) := by decide
 
 end Ioflo.Share
 
@@ -403,8 +412,9 @@ end Ioflo.Share
 #print axioms Ioflo.Share.C19_fields_ordered_map_get
 #print axioms Ioflo.Share.C19_fields_ordered_map
 #print axioms Ioflo.Share.C19_fields_ordered_map_insert
-#print axioms Ioflo.Share.C19_field_names_public_partial
-#print axioms Ioflo.Share.C19_counterexample_sift
+#print axioms Ioflo.Share.C19_field_names_public
+#print axioms Ioflo.Share.C19_rejects_nonpublic
+#print axioms Ioflo.Share.C19_legacy_sift
 #print axioms Ioflo.Share.C19_deck_fifo
 #print axioms Ioflo.Share.C19_gulp_ignores_none
 #print axioms Ioflo.Share.C19_spew_none_iff_empty_partial
